@@ -55,7 +55,8 @@ def gen_sched(rng, n_cmds=None):
             elif when < 0.8:
                 d = ("a", max(0, (horizon // 10 - rng.randint(0, 2)) * 10))   # past / present
                 case["tags"].add("bad-deadline")
-            elif now_known and horizon % 10 == 0:
+            elif now_known and horizon % 10 == 0 and not any(c[0] in ("st", "su") for c in cmds):
+                # relative deadlines only while the time is certainly the start time (see process_event below)
                 d = ("r", rng.choice([0, 10, 20, 30]))
                 if d[1] == 0:
                     case["tags"].add("bad-deadline")
